@@ -1710,6 +1710,7 @@ def run_c17(ctx: fw.Ctx) -> None:
             st2.fail(f"resolution failed: {res[0]} {res[1]}", case)
             continue
         check_tree(st2, res[1], case)
+    t2_resolve(ctx, [make_file_tree(r, faults=False) for _ in range(ctx.n(30, 500))])
 
 
 def struct_dump(n) -> Any:
@@ -2110,6 +2111,7 @@ def run_c04(ctx: fw.Ctx) -> None:
     st2.exhaustive = True
     st3 = ctx.stream("random styles on resolved programs")
     eval_resolve(ctx, st3, [make_file_tree(r, faults=False) for _ in range(ctx.n(30, 400))], [style_space(r), style_space(r)])
+    t2_resolve(ctx, trees[: ctx.n(80, 1500)] + [dict(base, search=p) for p in perms])
     entry = next((k for k in fw.load_known().get("findings", []) if k["id"] == "K4" and k["property"] == "C04"), None)
     if entry:
         stw = ctx.stream("known-finding witnesses K4")
@@ -2255,6 +2257,12 @@ def run_c12(ctx: fw.Ctx) -> None:
                       "(callstat (call (name _require) (str 78)))"]:
             if probe not in text:
                 st2.fail("a call that only looks like require was changed", dict(case, missing=probe))
+    t2_trees = []
+    for _ in range(ctx.n(25, 400)):
+        t = make_file_tree(r, faults=False)
+        bad, _ln = inject_fault(r, t, r.choice(list(FAULTS)), r.choice(FAULT_SITES), r.choice(list(t["files"])))
+        t2_trees.append(bad)
+    t2_resolve(ctx, t2_trees)
     st3 = ctx.stream("statement-level dependency cycles of length 1..3 terminate")
     for n in (1, 2, 3):
         for variant in range(ctx.n(4, 40)):
@@ -2740,3 +2748,49 @@ LEAN_OBLIGATIONS.update({
 })
 for _pid, _ov in LEAN_OBLIGATIONS.items():
     REGISTRY[_pid].update(_ov)
+
+
+# =========================================================================== T2 correspondence: model resolver vs tumfl resolver
+def py_resolve_canon(tree: dict) -> str:
+    root = materialise(tree)
+    try:
+        with quiet():
+            try:
+                ast = with_watchdog(10, tumfl.resolve_recursive, root / tree["main"], [root / s for s in tree["search"]])
+                return "ok " + modeldump.block(ast)
+            except InvalidDependencyError as e:
+                return f"err dependency {e.token.line} {e.token.column}"
+            except LexerError as e:
+                return f"err lexer {e.line} {e.column}"
+            except ParserError as e:
+                return f"err parser {e.token.type.name} {e.token.line} {e.token.column} {modeldump.hints(e.hints)}"
+            except Timeout:
+                return "timeout"
+            except RecursionError:
+                return "err py RecursionError"
+            except Exception as e:  # noqa: BLE001
+                return f"err py {type(e).__name__}"
+    finally:
+        shutil.rmtree(root, ignore_errors=True)
+
+
+def t2_resolve(ctx: fw.Ctx, trees: list[dict], name: str = "T2:resolve") -> None:
+    """Correspondence: the Lean model of dependency_resolver.py on the abstract file system against the real resolver on a real directory tree."""
+    st = next((s for s in ctx.streams if s.name == name + " correspondence"), None) or ctx.stream(name + " correspondence")
+
+    def enc(p: str) -> str:
+        return p if p else "/"
+
+    reqs = []
+    for t in trees:
+        sp = ";".join(enc(s) for s in t["search"]) if t["search"] else "-"
+        dirs = ";".join(t.get("dirs", [])) if t.get("dirs") else "-"
+        reqs.append(("mresolve", t["main"], sp, dirs, *[f"{p}={hx(c)}" for p, c in t["files"].items()]))
+    answers = drive(reqs)
+    for t, ans in zip(trees, answers):
+        mine = py_resolve_canon(t)
+        st.record({"kind": "t2-resolve", "main": t["main"], "search": t["search"], "files": list(t["files"])}, key=json.dumps(t, sort_keys=True))
+        if ans != mine and not (ans.startswith("err py") and mine.startswith("err py")):
+            a, b = ans, mine
+            i = next((k for k in range(min(len(a), len(b))) if a[k] != b[k]), min(len(a), len(b)))
+            ctx.tie_broken(name, {"tree": t, "model": a[max(0, i - 150): i + 250], "tumfl": b[max(0, i - 150): i + 250]})
